@@ -53,8 +53,17 @@ pub fn job_defines(job: &Job) -> Vec<(String, sut::DefVal)> {
 fn gen_job_plain(t: &mut Tape) -> Job {
     // v2: programs that mix functions, conditional arms, asm blocks, sub-rules, banks, assertions (no model needed
     // by the metamorphic checks that draw jobs from here)
-    let w: [u32; 5] = if crate::engine::gen_version() >= 2 { [4, 2, 4, 4, 4] } else { [4, 2, 4, 4, 0] };
+    let w: [u32; 6] = if crate::engine::gen_version() >= 3 {
+        [4, 2, 4, 4, 4, 2]
+    } else if crate::engine::gen_version() >= 2 {
+        [4, 2, 4, 4, 4, 0]
+    } else {
+        [4, 2, 4, 4, 0, 0]
+    };
     match t.weighted(&w) {
+        // v3: rules that reach one text from different prefix buckets of the matcher index (`j{c: cond} {a}` beside
+        // `jl {a}`, `{r: reg}.set` beside `a.set`), with lines that tie or fail every candidate
+        5 => crate::props::c10::gen_buckets(t),
         4 => {
             let src = crate::props::c03::feature_mix_program(t);
             Job { origin: "feature-mix".into(), files: vec![("main.asm".into(), src.into_bytes())], root: "main.asm".into(), generated: true }
